@@ -220,7 +220,7 @@ def answer (l : Line) : Option Ans :=
     let symmetric := match Model.C12.zipWith tr m with | .ok r => r == m | .panic => true
     pure { model := model, spec := spec, tags := [op, if square then op ++ "-square" else op ++ "-nonsquare-panic"]
            nontrivial := !square || (m.length ≥ 2 && !symmetric) }
-  | "flatten", [nv] => do
+  | "flatten", [nv] | "flattenshared", [nv] => do
     let mres := Model.C12.flatten (nestM nv)
     let model := match mres with
       | some r => [Val.atom "ok", Val.ofInts r]
